@@ -307,6 +307,68 @@ fn back_pressure(compressed: bool, keepalive: bool) -> Result<(Vec<Vec<u8>>, Vec
     })
 }
 
+/// The application's writes are blocked (the peer does not read) and the peer has sent: `lead` non-binary / empty
+/// messages, then a SMALL in a binary message.  Reading does not depend on the write side: the SMALL is
+/// delivered while the writer is still blocked, as it would be over TCP.
+/// lead: 0 nothing, 1 ping, 2 text, 3 pong, 4 empty binary, 5 three pings, 6 ping + text + ping
+fn read_while_blocked(compressed: bool, lead: u8) -> Result<Result<String, String>, String> {
+    let rt = tokio::runtime::Builder::new_current_thread().enable_io().enable_time().build().map_err(|e| e.to_string())?;
+    rt.block_on(async move {
+        let std_listener = LISTENER.with(|l| l.try_clone()).map_err(|e| e.to_string())?;
+        let listener = tokio::net::TcpListener::from_std(std_listener).map_err(|e| e.to_string())?;
+        let addr = listener.local_addr().unwrap();
+        let (go_tx, go_rx) = tokio::sync::oneshot::channel::<()>();
+        let small: Vec<u8> = if compressed { vec![2, 4, 1, 0, 0, 0, 0, 0] } else { vec![8, 4, 1, 0, 0, 0, 0, 0] };
+        let small2 = small.clone();
+        let server = tokio::spawn(async move {
+            let (stream, _) = listener.accept().await.map_err(|e| e.to_string())?;
+            let mut ws = tokio_tungstenite::accept_async(stream).await.map_err(|e| e.to_string())?;
+            let leads: Vec<Message> = match lead {
+                0 => vec![],
+                1 => vec![Message::Ping(vec![1, 2, 3].into())],
+                2 => vec![Message::Text("hello".into())],
+                3 => vec![Message::Pong(vec![9].into())],
+                4 => vec![Message::Binary(Vec::<u8>::new().into())],
+                5 => vec![Message::Ping(vec![1].into()), Message::Ping(vec![2].into()), Message::Ping(vec![3].into())],
+                _ => vec![Message::Ping(vec![1].into()), Message::Text("x".into()), Message::Ping(vec![2].into())],
+            };
+            for m in leads { ws.send(m).await.map_err(|e| e.to_string())?; }
+            ws.send(Message::Binary(small2.into())).await.map_err(|e| e.to_string())?;
+            let _ = go_rx.await;
+            // drain until the client goes away
+            while let Ok(Some(Ok(_))) = tokio::time::timeout(Duration::from_secs(5), ws.next()).await {}
+            Ok::<_, String>(())
+        });
+        let tcp = tokio::time::timeout(WATCHDOG, tokio::net::TcpStream::connect(addr)).await.map_err(|_| "connect timed out".to_string())?.map_err(|e| e.to_string())?;
+        let _ = tcp.set_nodelay(true);
+        let (ws, _) = tokio::time::timeout(WATCHDOG, tokio_tungstenite::client_async(format!("ws://{addr}/connect"), tokio_tungstenite::MaybeTlsStream::Plain(tcp)))
+            .await.map_err(|_| "websocket handshake timed out".to_string())?.map_err(|e| e.to_string())?;
+        let mut framed = Framed::new(Box::new(WebsocketStream::from(ws)), Codec::new(if compressed { Mode::Compressed } else { Mode::Uncompressed }));
+        let mut stalled = false;
+        for n in 0..120_000u32 {
+            let p = Packet::Mtc(insim::insim::Mtc { text: format!("packet {n:08} {}", "x".repeat(100)), ..Default::default() });
+            match tokio::time::timeout(Duration::from_millis(300), framed.write(p)).await {
+                Err(_) => { stalled = true; break; },
+                Ok(Err(e)) => return Err(format!("write #{n} failed: {e}")),
+                Ok(Ok(())) => {},
+            }
+        }
+        if !stalled { return Err("the writer never stalled".into()); }
+        // the writer is blocked; what the peer sent is waiting to be read
+        let verdict = match tokio::time::timeout(Duration::from_secs(3), framed.read()).await {
+            Err(_) => Err("the packet the peer sent was not delivered within 3 s while the application's writes are blocked".to_string()),
+            Ok(r) => {
+                let got = crate::e2::world::render(&r);
+                if got.starts_with("Ok(Small(") { Ok(got) } else { Err(format!("read returned {} where the peer's SMALL is due", got.chars().take(80).collect::<String>())) }
+            },
+        };
+        let _ = go_tx.send(());
+        drop(framed);
+        let _ = tokio::time::timeout(Duration::from_secs(20), server).await;
+        Ok(verdict)
+    })
+}
+
 fn partition(stream: &[u8], mask: u64) -> Vec<Vec<u8>> {
     // bit i of mask set = cut after byte i
     let mut out = vec![];
@@ -615,6 +677,20 @@ pub fn sites(tier: Tier) -> Vec<Site> {
                                 got.get(at).map(|m| String::from_utf8_lossy(&m[8..m.len().min(28)]).to_string()), written.get(at).map(|m| String::from_utf8_lossy(&m[8..m.len().min(28)]).to_string())), replay);
                     }
                 },
+            }
+        }));
+    sites.push(Site::new("read-while-writer-blocked", 14, "the application's writes are blocked against a peer that does not read; the peer has sent {nothing, a ping, a text, a pong, an empty binary message, three pings, ping + text + ping} and then a SMALL (both modes): the SMALL is delivered within 3 s, as it would be over TCP",
+        |i, acc| {
+            let compressed = i % 2 == 0;
+            let lead = (i / 2) as u8;
+            acc.eval();
+            let lname = ["nothing", "a ping", "a text", "a pong", "an empty binary message", "three pings", "ping + text + ping"][lead as usize];
+            let replay = json!({"site": "read-while-writer-blocked", "index": i, "mode": if compressed { "compressed" } else { "uncompressed" }, "lead": lname});
+            match guard(|| read_while_blocked(compressed, lead)) {
+                Err(p) => acc.violate(i, "C20|read|panic".into(), p, replay),
+                Ok(Err(e)) => { eprintln!("MACHINERY: websocket blocked-writer harness failed: {e}"); std::process::exit(4); },
+                Ok(Ok(Ok(_))) => { acc.class("delivered-while-writer-blocked"); acc.nontrivial(); },
+                Ok(Ok(Err(e))) => acc.violate(i, "C20|read|held-back-by-the-blocked-writer".into(), format!("{} mode, {lname} in front of the packet: {e}", if compressed { "compressed" } else { "uncompressed" }), replay),
             }
         }));
     sites
